@@ -179,3 +179,28 @@ def selftest(ctx):
     if bad:
         raise vlib.ToolError("FmtTokens self-test: (run, verdict, expected) %r" % bad)
     ctx.note("judge_selftest_runs", len(cases))
+
+
+def focus_cases(ctx, first_id, keep=None):
+    """Dense (program x configuration) families of spec/FmtFocus.tla (quote / comment / doc), enumerated by TLC.
+
+    quick: pairwise configuration sets (FmtFocus_q); thorough: full products x programs drawn by TLC (FmtFocus_t).
+    `keep(case)` thins the list (deterministically) for a check that cannot afford all of it."""
+    res = vlib.tlc("FmtFocus", ctx.pick("FmtFocus_q", "FmtFocus_t"), workers=ctx.pick(2, 4), timeout=ctx.pick(600, 2400),
+                   seed=ctx.seed)
+    ctx.add_tlc(res)
+    got = [c for t, c in res.json if t == "CASE"]
+    if len(got) != res.distinct or not got:
+        raise vlib.ToolError("FmtFocus: %d cases for %d states\n%s" % (len(got), res.distinct, res.out[-1500:]))
+    got.sort(key=lambda c: (c["kinds"][0], c["text"], json.dumps(c["cfg"], sort_keys=True)))
+    fams = {}
+    cases = []
+    for c in got:
+        case = {"src": "focus/" + c["kinds"][0], "text": c["text"], "cfg": c["cfg"]}
+        if keep is not None and not keep(case):
+            continue
+        fams[case["src"]] = fams.get(case["src"], 0) + 1
+        case["id"] = first_id + len(cases)
+        cases.append(case)
+    ctx.note("focus_family_cases", fams)
+    return cases
